@@ -123,7 +123,8 @@ PairClassesFab == {"generic", "equal", "bothOne", "winOneIn", "winOneEdge", "xOn
                   \cup NearClasses
 QuotClasses == {"generic", "equal", "equalQuarter", "equalLarge", "equalSmall", "xZero", "apart3", "crossQuarter", "large", "small"}
 TripleClassesI == {"generic", "allEqual", "twoEqualLo", "twoEqualHi", "allNear", "oneIsMax", "oneZero", "twoZero", "allZero", "hier"} \cup NearClasses
-TripleClassesPhi == {"generic", "kallenPos", "kallenNeg", "kallenZero", "pairEqual", "pairNear", "uOne", "allEqual", "smallUV", "hier",
+\* oneTiny: one ratio below qdrt_eps (2.2e-4, small-argument expansions l0v / lv0) and the other of order one
+TripleClassesPhi == {"generic", "kallenPos", "kallenNeg", "kallenZero", "pairEqual", "pairNear", "uOne", "allEqual", "smallUV", "hier", "oneTiny",
                      "kallenNear12", "kallenNear10", "kallenNear8", "kallenNear6", "kallenNear4", "kallenNear3"}
 CSClasses == {"generic", "physical", "kallenNear", "xdZero"}
 FCWClasses == {"physical", "equalScales", "generic"}
